@@ -75,7 +75,7 @@ type c25Case struct {
 	Modern    bool     `json:"modern"`  // protocol of both connections: 1.20.2 or 1.12.2
 	Channel   string   `json:"channel"`
 	Body      string   `json:"body_hex"`
-	Registrar []string `json:"registrar"` // channel ids registered with the proxy's ChannelRegistrar
+	Registrar []string `json:"registrar"`  // channel ids registered with the proxy's ChannelRegistrar
 	Sub       string   `json:"subscriber"` // none | passive | allow | deny : what a PluginMessageEvent subscriber does
 	WriteFail bool     `json:"write_fail"` // the receiving connection rejects writes
 	Existing  int      `json:"existing"`   // channels already registered by this client
@@ -147,7 +147,9 @@ func c25NewRig(handler string, modern bool, registrar []string, sub string, exis
 
 	switch sub {
 	case "passive":
-		g7On(r.events, func(e *PluginMessageEvent) { r.obs.eventData = append(r.obs.eventData, append([]byte(nil), e.Data()...)) })
+		g7On(r.events, func(e *PluginMessageEvent) {
+			r.obs.eventData = append(r.obs.eventData, append([]byte(nil), e.Data()...))
+		})
 	case "allow":
 		g7On(r.events, func(e *PluginMessageEvent) {
 			r.obs.eventData = append(r.obs.eventData, append([]byte(nil), e.Data()...))
